@@ -152,6 +152,31 @@ def register(T, repo):
                     D + 'ItemToken', D + 'AccentToken', D + 'VerbatimToken',
                     D + 'TextToken'])
 
+    # --------------------------------------------------------- error_token
+    def et_post(A, r):
+        ex = A['$ex']
+        mark = lift_str(A['self'].fields['parms'].fields[
+            'mark_latex_error'])
+        head = lift_str(sym.seq_concat(sym.seq_concat(' ', mark), ' '))
+        txt = lift_str(r.fields['txt'])
+        return And(zbool(r.fields['pos_fix']),
+                   zint(r.fields['pos']) == zint(A['start']),
+                   # the complete mark in one token (C08)
+                   zint(txt.ln) >= zint(head.ln),
+                   forall(0, head.ln, lambda k: txt.at(k) == head.at(k)))
+    if S + 'error_token' in repo.funcs:
+        T.add(FContract(
+            S + 'error_token', ghosts=src_ghost,
+            params=lambda G: {'self': cm.ScannerS(G['src']),
+                              'err': StrS(name='err'),
+                              'start': IntS(name='start'),
+                              'latex': cm.SameS(G['src'])},
+            requires=[('start-in-range', lambda A: And(
+                0 <= zint(A['start']),
+                zint(A['start']) < zint(A['src'].ln)))],
+            result=lambda A: tm.DocTok(A['src'], [D + 'TextToken']),
+            ensures=[('complete-mark', et_post)], pure=True))
+
     # ----------------------------------------------------------- scan_verb
     def verb_post(A, r):
         ex = A['$ex']
